@@ -118,8 +118,13 @@ impl Report {
     }
 
     /// Records a violation. `weight` orders cases inside a class: the lightest is kept as the replay.
+    /// Every oracle of this engine is evaluated on one execution of the subject and is sound for it,
+    /// and the harness itself is deterministic (inputs are functions of the case). A violation that
+    /// does not show again when its case is replayed alone therefore depends on what the subject's
+    /// thread did before (thread-local scratch) or on the OS schedule of the subject's own threads:
+    /// it is reported from the recorded observation, with a note (see `vcheck`).
     pub fn violation(&self, class: &str, what: &str, case: Value, weight: u64) {
-        self.violation_x(false, class, what, case, weight)
+        self.violation_x(true, class, what, case, weight)
     }
 
     /// A violation whose observation is conclusive without reproduction (history- or
